@@ -390,3 +390,31 @@ Print Assumptions c14_variational_model_commutes_with_field_morphisms.
 Example ex_c14_executed_kl_hypotheses : @symmetric RF 2 (mapR exq_Sw) /\ @PD RF ROrd 2 (mapR exq_Sw).
 Proof. exact ex_executed_kl_wh_hyps. Qed.
 Print Assumptions ex_c14_executed_kl_hypotheses.
+
+(* ---- legacy (pre-whitening) checkpoints.  A state dict without the `updated_strategy` flag holds the parameters
+   of an UNWHITENED q(u) = N(mq, S); VariationalStrategy converts them on the first call to
+   m_w = L^-1 (mq - mz), S_w = L^-1 S L^-T.  For ANY root L of Kzz with inverse Linv the converted parameters
+   describe the same q(u) ... *)
+From GPV Require Import Proofs.C14_legacy.
+Theorem c14_legacy_conversion_roundtrip :
+  forall (K : Fld) m (L Linv : M), is_inverse m L Linv ->
+    forall mz mq S,
+    meq m 1 (unwhiten_mean m L mz (legacy_mean m Linv mz mq)) mq /\
+    meq m m (unwhiten_cov m L (legacy_cov m Linv S)) S.
+Proof. intros K m L Linv H mz mq S. split; [exact (@legacy_mean_roundtrip K m L Linv H mz mq)|exact (@legacy_cov_roundtrip K m L Linv H S)]. Qed.
+Print Assumptions c14_legacy_conversion_roundtrip.
+
+(* ... hence the whitened predictive evaluated at the CONVERTED parameters is the unwhitened closed form of the
+   ORIGINAL (mq, S), for all sizes: what a loaded legacy model must predict, in eval and in train mode *)
+Theorem c14_legacy_predictive_is_unwhitened_closed_form :
+  forall (K : Fld) m n Kzz Kzx Kxx Kinv L Linv,
+    meq m m (mmul m L (mT L)) Kzz -> is_inverse m L Linv -> is_inverse m Kzz Kinv ->
+    forall mx mz mq S,
+    meq n 1 (wh_mean m (interp m Linv Kzx) mx (legacy_mean m Linv mz mq)) (unwh_mean m Kzx Kinv mx mz mq) /\
+    meq n n (wh_cov m (interp m Linv Kzx) Kxx (legacy_cov m Linv S)) (unwh_cov m Kzz Kzx Kxx Kinv S).
+Proof.
+  intros K m n Kzz Kzx Kxx Kinv L Linv HL HLi HK mx mz mq S. split;
+  [exact (@legacy_predictive_mean K m n Kzz Kzx Kinv L Linv HL HLi HK mx mz mq)
+  |exact (@legacy_predictive_cov K m n Kzz Kzx Kxx Kinv L Linv HL HLi HK S)].
+Qed.
+Print Assumptions c14_legacy_predictive_is_unwhitened_closed_form.
